@@ -34,7 +34,7 @@ def shards(tier, seed):
     if tier == "quick":
         n_sh, n, budget = 8, 220, 40
     else:
-        n_sh, n, budget = 16, 1600, 330
+        n_sh, n, budget = 16, 15000, 330
     out = [{"name": f"kw{i}", "threads": 2, "timeout": budget * 4 + 300,
             "params": {"kind": "sweep", "seed": seed, "shard": i, "n": n, "budget_s": budget,
                        "tier": tier}} for i in range(n_sh)]
